@@ -47,6 +47,10 @@ type Link struct {
 	// NonDlg: the proof CID at this position is the CID of a token that IS in the loader's
 	// container but is not a delegation (an invocation sealed by Iss)
 	NonDlg bool
+	// ID / RepeatID: a link with RepeatID != 0 stands for the very same token - same object, same
+	// sealed bytes, same CID - as the link whose ID is RepeatID (wherever that one is in the list
+	// now; if it is gone, the link stands for itself)
+	ID, RepeatID int
 }
 
 // Scenario is one invocation with its proof chain.
@@ -85,24 +89,25 @@ func (s *Scenario) PrincipalsOK() (bool, string) {
 	if len(s.Links) == 0 {
 		return false, "empty"
 	}
-	for i, l := range s.Links {
+	links, _ := s.eff()
+	for i, l := range links {
 		if l.Missing || l.LoadErr || l.NonDlg {
 			return false, fmt.Sprintf("unloadable@%d", i)
 		}
 	}
-	if s.Links[0].Aud != s.Invoker {
+	if links[0].Aud != s.Invoker {
 		return false, "first-aud"
 	}
-	for i := 0; i+1 < len(s.Links); i++ {
-		if s.Links[i].Iss != s.Links[i+1].Aud {
+	for i := 0; i+1 < len(links); i++ {
+		if links[i].Iss != links[i+1].Aud {
 			return false, fmt.Sprintf("link@%d", i)
 		}
 	}
-	last := s.Links[len(s.Links)-1]
+	last := links[len(links)-1]
 	if last.Sub == nil || last.Iss != last.Sub {
 		return false, "root"
 	}
-	for i, l := range s.Links {
+	for i, l := range links {
 		if l.Sub != s.Subject {
 			return false, fmt.Sprintf("subject@%d", i)
 		}
@@ -110,10 +115,31 @@ func (s *Scenario) PrincipalsOK() (bool, string) {
 	return true, ""
 }
 
+// eff returns the links as they are realised: a link with a RepeatID is the link it repeats.
+// orig[i] is the index of the link position i stands for (i itself if it repeats nothing).
+func (s *Scenario) eff() ([]Link, []int) {
+	out := make([]Link, len(s.Links))
+	orig := make([]int, len(s.Links))
+	for i, l := range s.Links {
+		out[i], orig[i] = l, i
+		if l.RepeatID == 0 {
+			continue
+		}
+		for j, o := range s.Links {
+			if o.RepeatID == 0 && o.ID == l.RepeatID {
+				out[i], orig[i] = o, j
+				break
+			}
+		}
+	}
+	return out, orig
+}
+
 // CommandsOK is the command rule of C02.
 func (s *Scenario) CommandsOK() (bool, string) {
 	cur := s.Cmd
-	for i, l := range s.Links {
+	links, _ := s.eff()
+	for i, l := range links {
 		if !ref.CmdCovers(l.Cmd, cur) {
 			return false, fmt.Sprintf("cmd@%d", i)
 		}
@@ -126,7 +152,8 @@ func (s *Scenario) CommandsOK() (bool, string) {
 func (s *Scenario) PoliciesOK(a ref.V) (ref.Tri, string) {
 	res := ref.True
 	where := ""
-	for i, l := range s.Links {
+	links, _ := s.eff()
+	for i, l := range links {
 		for j, st := range l.Pol {
 			t, _ := ref.Eval(st, a)
 			if t == ref.Unresolved {
@@ -152,7 +179,8 @@ func (s *Scenario) TimesOK() (bool, string) {
 	} else if s.InvExp != nil && *s.InvExp < 0 {
 		return false, "time@inv"
 	}
-	for i, l := range s.Links {
+	links, _ := s.eff()
+	for i, l := range links {
 		if l.ExpAbs != nil {
 			if l.ExpAbs.Before(now) {
 				return false, fmt.Sprintf("time-exp@%d", i)
@@ -301,7 +329,14 @@ func (s *Scenario) Build(r *rand.Rand) (*Built, error) {
 	ml := &MapLoader{M: map[cid.Cid]*delegation.Token{}, Errs: map[cid.Cid]bool{}}
 	errs := map[cid.Cid]bool{}
 	wr := container.NewWriter()
-	for i, l := range s.Links {
+	links, orig := s.eff()
+	type madeTok struct {
+		d      *delegation.Token
+		sealed []byte
+		c      cid.Cid
+	}
+	made := map[int]madeTok{}
+	for i, l := range links {
 		if l.NonDlg {
 			// an invocation stands where a delegation is referenced
 			cmd, err := command.Parse(l.Cmd)
@@ -324,7 +359,9 @@ func (s *Scenario) Build(r *rand.Rand) (*Built, error) {
 		var d *delegation.Token
 		var sealed []byte
 		var c cid.Cid
-		if s.Reuse != nil && i < s.ReuseN && i < len(s.Reuse.Dlgs) && s.Reuse.Dlgs[i] != nil {
+		if t, ok := made[orig[i]]; ok {
+			d, sealed, c = t.d, t.sealed, t.c
+		} else if s.Reuse != nil && i < s.ReuseN && i < len(s.Reuse.Dlgs) && s.Reuse.Dlgs[i] != nil {
 			d, sealed, c = s.Reuse.Dlgs[i], s.Reuse.Sealed[i], s.Reuse.Cids[i]
 		} else {
 			var err error
@@ -337,6 +374,7 @@ func (s *Scenario) Build(r *rand.Rand) (*Built, error) {
 				return nil, fmt.Errorf("link %d seal: %w", i, err)
 			}
 		}
+		made[orig[i]] = madeTok{d, sealed, c}
 		b.Dlgs = append(b.Dlgs, d)
 		b.Cids = append(b.Cids, c)
 		b.Sealed = append(b.Sealed, sealed)
@@ -519,11 +557,16 @@ func dur(d *time.Duration) string {
 // Describe renders the scenario in full.
 func (s *Scenario) Describe() map[string]any {
 	links := []any{}
-	for _, l := range s.Links {
-		links = append(links, map[string]any{
+	eff, orig := s.eff()
+	for i, l := range eff {
+		m := map[string]any{
 			"iss": pname(l.Iss), "aud": pname(l.Aud), "sub": pname(l.Sub), "cmd": l.Cmd, "pol": l.Pol.String(),
 			"nbf": dur(l.Nbf), "exp": dur(l.Exp), "missing": l.Missing, "loaderr": l.LoadErr, "not_a_delegation": l.NonDlg,
-		})
+		}
+		if orig[i] != i {
+			m["same_token_as_position"] = orig[i]
+		}
+		links = append(links, m)
 	}
 	return map[string]any{
 		"invoker": pname(s.Invoker), "subject": pname(s.Subject), "audience": pname(s.Audience), "cmd": s.Cmd,
@@ -550,8 +593,12 @@ func (s *Scenario) Pattern() string {
 	}
 	var b strings.Builder
 	fmt.Fprintf(&b, "inv=%s sub=%s aud=%s", nm(s.Invoker), nm(s.Subject), nm(s.Audience))
-	for _, l := range s.Links {
+	eff, orig := s.eff()
+	for i, l := range eff {
 		fmt.Fprintf(&b, " [%s>%s/%s", nm(l.Iss), nm(l.Aud), nm(l.Sub))
+		if orig[i] != i {
+			fmt.Fprintf(&b, " =#%d", orig[i])
+		}
 		if l.Missing {
 			b.WriteString(" missing")
 		}
